@@ -7,6 +7,12 @@ VERIF = os.path.dirname(os.path.dirname(os.path.abspath(__file__)))
 ALL = [f"C{i:02d}" for i in range(1, 21)]
 
 CLAIMS = {
+    "C04": dict(
+        text="Machine-checked Coq proofs: for every non-empty well-formed code string the label finder bound by an opcode table returns exactly CPython's dis.findlabels list (relative/absolute, x2 from 3.10, backward-jump names from 3.11, own inline caches from 3.12) - by simulation of both unpacking loops plus a fold lemma; Instruction.argval of every jump equals CPython's target for all offsets/operands; is_jump_target <-> offset in labels or exception targets. Jump classification, backward naming and cache sizes are vm_compute obligations over tables regenerated from /repo and the installed interpreters; the cache table and thresholds of _get_jump_cache_size come from the source AST. Model tied by in-Coq correspondence over all 39 tables and the corpus.",
+        note="Trusted: Coq kernel; hand model coq/Model/Instr.v + correspondence; translators (opcodes, small); Spec/Dis.v validated on every run against dis.findlabels of the installed 2.7, 3.6-3.13 (2.7's findlabels ignores EXTENDED_ARG, compared on code without it). Hypothesis wf_strict stated in the theorem and shown on real code. That targets are instruction starts is a property of compiler output, not decided. No axioms.",
+        technique="Coq proof by induction (simulation + fold) + vm_compute table obligations + in-Coq correspondence",
+        design="7/C04",
+    ),
     "C02": dict(
         text="Machine-checked Coq proofs over ALL code byte strings: (tiling) whenever decoding succeeds offsets start at 0, advance by the version's instruction width and end at len(co_code); a cut-off operand is an IndexError; (agreement) for every well-formed code string, any number of EXTENDED_ARG prefixes and any operand size, the model's stream has the offsets, opcodes and folded operands of CPython's own unpacking (2.7 disassemble, 3.6-3.13 _unpack_opargs incl. inline-cache skipping and the 3.10 reset rule), the instructions decoded inside cache entries being exactly those stripped. Table compatibility (HAVE_ARGUMENT/hasarg, EXTENDED_ARG, caches) is a vm_compute obligation over tables regenerated from /repo and from the installed interpreters; tables without an interpreter are proved against the decoding algorithm of their version family. Model tied to get_instructions_bytes by in-Coq correspondence over all 39 tables and the corpus.",
         note="Trusted: Coq kernel; hand model coq/Model/Instr.v (the two-level generator modelled as one flat loop) + correspondence harness; opcode translator; Spec/Dis.v transcribed from dis.py and validated on every run against the real dis of 2.7, 3.6-3.13. Hypothesis wf_code (no operand-less opcode after EXTENDED_ARG before 3.10, operands < 2^31 from 3.11, cache entries operand-less) is stated and shown to hold of real code. No axioms.",
